@@ -164,7 +164,7 @@ def gen_edit(rng, st, prof):
     if r < 0.58 and prof.get("fd_conflicts", False) and st.tracked:
         # a tracked file gives way to a directory of the same name holding untracked files
         p = rng.choice(st.tracked)
-        if p in st.s.files and p.count(b"/") < 4:
+        if p in st.s.files and p.count(b"/") < 4 and not p.startswith(b".goitignore"):
             comps = prof.get("components", COMPONENTS)
             q = prof.setdefault("queue", [])
             q.append(Edit("write", p + b"/" + rng.choice(comps), content(rng, prof)))
@@ -174,7 +174,7 @@ def gen_edit(rng, st, prof):
     if r < 0.61 and prof.get("fd_conflicts", False) and st.tdirs:
         # the other way round: a directory holding tracked files gives way to a file of the same name
         d = rng.choice(st.tdirs)
-        if d in st.s.dirs:
+        if d in st.s.dirs and not d.startswith(b".goitignore"):
             prof.setdefault("queue", []).append(Edit("write", d, content(rng, prof)))
             return Edit("rmtree", d)
     # new file, not colliding with an existing directory or below an existing file
